@@ -67,6 +67,10 @@ type ViolRec struct {
 	Tape       []uint32       `json:"tape"`
 	Violations []rt.Violation `json:"violations"`
 	TraceHash  string         `json:"trace_hash"`
+	// Before: the runs (index, sweep position) this worker process executed
+	// before this one, oldest first, at most 256 - the material for a history
+	// replay when the violation does not reproduce from its own tape alone.
+	Before [][2]int `json:"before,omitempty"`
 }
 
 type Sample struct {
@@ -134,9 +138,16 @@ func workMain(fs *flag.FlagSet, args []string) {
 	shapes := map[string]bool{}
 	unknownPerClass := map[string]int{}
 
+	var history [][2]int
 	account := func(idx, k int, res RunResult, tape *rt.Tape, record bool) {
 		r := res.Run
 		o.Runs++
+		defer func() {
+			history = append(history, [2]int{idx, k})
+			if len(history) > 256 {
+				history = history[len(history)-256:]
+			}
+		}()
 		if r.NonTrivial {
 			o.NonTrivial++
 			if len(shapes) < 3_000_000 {
@@ -165,7 +176,7 @@ func workMain(fs *flag.FlagSet, args []string) {
 				Faults: r.Faults, Probes: r.Probes, Events: ev, Shape: res.ShapeHash})
 		}
 		for _, v := range res.Violations {
-			rec := ViolRec{Idx: idx, K: k, Tape: append([]uint32(nil), tape.Rec...), Violations: []rt.Violation{v}, TraceHash: res.TraceHash}
+			rec := ViolRec{Idx: idx, K: k, Tape: append([]uint32(nil), tape.Rec...), Violations: []rt.Violation{v}, TraceHash: res.TraceHash, Before: append([][2]int(nil), history...)}
 			if ki := matchKnown(findings, p.ID, v); ki >= 0 {
 				h := o.Known[ki]
 				if h == nil {
